@@ -65,6 +65,7 @@ type queue struct {
 	wclosed  bool // writer finished: EOF once drained
 	aborted  bool // connection reset: error at once
 	readers  int  // goroutines blocked in Read on an empty queue
+	writers  int  // goroutines blocked in a synchronous Write (see End.synchronous)
 	consumed int64
 	written  int64
 	nsegs    int64
@@ -100,6 +101,27 @@ type End struct {
 	// io.Reader allows and as crypto/tls does when the close alert arrives
 	// with the last record. Default: the octets first, (0, io.EOF) next.
 	eofWithData bool
+
+	// synchronous: like net.Pipe, a Write returns only when the peer has
+	// consumed every octet of it (or the connection has ended, or the write
+	// deadline has passed): a transport without any buffering of its own.
+	// Default: writes never block (unbounded queue).
+	synchronous bool
+	wtimer      *time.Timer
+}
+
+// SetSynchronous switches this end's Write to net.Pipe behaviour (see the
+// field).
+func (e *End) SetSynchronous(on bool) {
+	e.hub.mu.Lock()
+	e.synchronous = on
+	e.hub.mu.Unlock()
+}
+
+// BlockedInWriteLocked reports whether a goroutine is parked in a synchronous
+// Write on this end, waiting for the peer to read. Hub must be locked.
+func (e *End) BlockedInWriteLocked() bool {
+	return e.out.writers > 0 && e.out.consumed < e.out.written && !e.closed && !e.out.aborted && !e.peer.closed
 }
 
 // SetEOFWithData switches the end-of-stream style of this end's Read (see the
@@ -215,6 +237,31 @@ func (e *End) Write(p []byte) (int, error) {
 	e.out.written += int64(len(p))
 	e.out.nsegs++
 	e.hub.cond.Broadcast()
+	if !e.synchronous {
+		return len(p), nil
+	}
+	// net.Pipe style: wait until the peer has read all of it
+	target := e.out.written
+	e.out.writers++
+	defer func() { e.out.writers-- }()
+	taken := func() int {
+		if n := len(p) - int(target-e.out.consumed); n > 0 {
+			return n
+		}
+		return 0
+	}
+	for e.out.consumed < target {
+		if e.closed {
+			return taken(), net.ErrClosed
+		}
+		if e.out.aborted || e.peer.closed {
+			return taken(), ErrReset
+		}
+		if !e.wdeadline.IsZero() && !time.Now().Before(e.wdeadline) {
+			return taken(), timeoutError{}
+		}
+		e.hub.cond.Wait()
+	}
 	return len(p), nil
 }
 
@@ -287,8 +334,8 @@ func (e *End) SetReadDeadline(t time.Time) error {
 	return nil
 }
 
-// Writes never block (unbounded queue); an expired write deadline makes
-// them fail, as it would on a socket.
+// Writes never block (unbounded queue) unless the end is synchronous; an
+// expired write deadline makes them fail, as it would on a socket.
 func (e *End) SetWriteDeadline(t time.Time) error {
 	e.hub.mu.Lock()
 	defer e.hub.mu.Unlock()
@@ -296,6 +343,18 @@ func (e *End) SetWriteDeadline(t time.Time) error {
 		return net.ErrClosed
 	}
 	e.wdeadline = t
+	if e.wtimer != nil {
+		e.wtimer.Stop()
+		e.wtimer = nil
+	}
+	if e.synchronous && !t.IsZero() {
+		d := time.Until(t)
+		if d < 0 {
+			d = 0
+		}
+		e.wtimer = time.AfterFunc(d, e.hub.cond.Broadcast)
+	}
+	e.hub.cond.Broadcast()
 	return nil
 }
 
@@ -384,9 +443,12 @@ func (l *Listener) Accept() (net.Conn, error) {
 	}
 }
 
+// Close closes the listener. Like a socket's, a second Close reports that the
+// listener is closed already.
 func (l *Listener) Close() error {
-	l.once.Do(func() { close(l.done) })
-	return nil
+	err := net.ErrClosed
+	l.once.Do(func() { close(l.done); err = nil })
+	return err
 }
 
 func (l *Listener) Addr() net.Addr { return memAddr("listener") }
